@@ -21,7 +21,8 @@
 //	get ext cur val                                    -> v:<val> | TE
 //	set ext cur val b thr                              -> b:0|1 | TE
 //	del ext cur b thr                                  -> b:0|1 | TE
-//	keys ext tkeys items                               -> k:<keys> | TE
+//	keys ext tkeys items                               -> k:<keys> | TE      (items `nil`: the trap returns null / nil)
+//	cons res                                           -> v:<object> | TE   (construct trap returns res; `new proxy()`)
 //
 // cur: - | P:V | D:V,W,E,C | A:G,S,E,C      desc: V,W,E,C,G,S ('-' absent)    trapdesc: u | p | desc
 // values: u n t f i<int> N z(-0) s<id> y<id> o<id>   (o1,o2 functions; o3,o4 objects; o10,o11 prototypes)
@@ -72,6 +73,8 @@ var __h = {
   del0: function(p,k){ return Reflect.deleteProperty(p,k); },
   del1: function(p,k){ "use strict"; return delete p[k]; },
   keys: function(p){ return Reflect.ownKeys(p); },
+  cons: function(p){ return new p(); },
+  mkFn: function(){ return function T(){ this.made = 1; }; },
   hasOwn: function(d,k){ return Object.prototype.hasOwnProperty.call(d,k); },
   isTE: function(e){ return e instanceof TypeError; }
 };
@@ -455,7 +458,7 @@ func (e *env) wb(ext bool) *goja.Object {
 var trapJSName = map[string]string{
 	"gpo": "getPrototypeOf", "spo": "setPrototypeOf", "ie": "isExtensible", "pe": "preventExtensions",
 	"gopd": "getOwnPropertyDescriptor", "def": "defineProperty", "has": "has", "get": "get", "set": "set",
-	"del": "deleteProperty", "keys": "ownKeys",
+	"del": "deleteProperty", "keys": "ownKeys", "cons": "construct",
 }
 
 // JS handler whose single trap ignores its arguments and returns res
@@ -753,6 +756,19 @@ func (e *env) e2e(hk, kk, trap string, f []string) string {
 		}
 		r, st := e.call("del"+thr, mk(t, vm.ToValue(b)), key)
 		return e.result(r, st, e.encBool)
+	case "cons":
+		res := e.val(f[0])
+		tv, st := e.call("mkFn")
+		if st != "" {
+			panic("mkFn: " + st)
+		}
+		t := tv.ToObject(vm)
+		cfg.Construct = func(*goja.Object, []goja.Value, *goja.Object) *goja.Object {
+			o, _ := res.(*goja.Object) // null / a primitive cannot be expressed: nil
+			return o
+		}
+		r, st := e.call("cons", mk(t, res))
+		return e.result(r, st, func(v goja.Value) string { return "v:" + e.enc(v) })
 	case "keys":
 		ext := bit(f[0])
 		t := e.mkTarget(goja.Null(), key, "-", true)
@@ -768,6 +784,11 @@ func (e *env) e2e(hk, kk, trap string, f []string) string {
 		}
 		if !ext {
 			e.call("pe", t)
+		}
+		if f[2] == "nil" { // the trap returns null (JS) / a nil *Object (Go)
+			cfg.OwnKeys = func(*goja.Object) *goja.Object { return nil }
+			r, st := e.call("keys", mk(t, goja.Null()))
+			return e.result(r, st, e.encKeys)
 		}
 		var items []interface{}
 		for _, it := range splitList(f[2]) {
